@@ -65,6 +65,13 @@ func parseVersion1(reader *bufio.Reader) (*Header, error) {
 		return nil, ErrCantReadProtocolVersionAndCommand
 	}
 	tokens := strings.Split(line[:len(line)-2], SEPARATOR)
+	if len(tokens) >= 2 && tokens[1] == "UNKNOWN" {
+		// the sender does not know the addresses: the rest of the line is to be ignored
+		header := initVersion1()
+		header.TransportProtocol = UNSPEC
+		state.ProxyNormalV1Header.Inc(1)
+		return header, nil
+	}
 	if len(tokens) < 6 {
 		state.ProxyErrInvalidHeader.Inc(1)
 		return nil, ErrCantReadProtocolVersionAndCommand
